@@ -71,3 +71,29 @@ def judge_inplace_after_run(tag="0"):
         if v["key"] not in seen:
             seen.add(v["key"]); uniq.append(v)
     return uniq
+
+
+def judge_oneshot_return_states(tag="0"):
+    """return_states given as a ONE-SHOT iterable of names (a generator, an iterator over a list): the named nodes' states come back as with a list"""
+    out = []
+    X = np.arange(8, dtype=float).reshape(4, 2) / 4.0
+    for form in ("generator", "iter"):
+        sc = {"kind": "oneshot-return-states", "form": form, "tag": tag}
+        mk = _mk("%so%s" % (tag, form[0]))
+        a, b, c = mk("a", 2.0, 1.0), mk("b", 0.5, -1.0), mk("c", 3.0, 0.25)
+        try:
+            m = a >> b >> c
+            names = [a.name, b.name]
+            rs = (n for n in names) if form == "generator" else iter(names)
+            got = m.run(X, return_states=rs)
+        except Exception as e:  # noqa: BLE001
+            out.append(_viol("return_states:oneshot-iterable", "return_states given as a %s of node names raises %r" % (form, e), sc))
+            continue
+        va = 2.0 * X + 1.0
+        vals = {a.name: va, b.name: 0.5 * va - 1.0}
+        ok = isinstance(got, dict) and sorted(got) == sorted(vals) and all(np.allclose(got[k], vals[k]) for k in vals)
+        if not ok:
+            out.append(_viol("return_states:oneshot-iterable", "run(return_states=<%s of two node names>) does not return those nodes' states (got %s)"
+                             % (form, {k: np.asarray(v).tolist() for k, v in got.items()} if isinstance(got, dict) else "a bare array"), sc,
+                             {k: v.tolist() for k, v in vals.items()}, None))
+    return out[:1]
